@@ -20,6 +20,9 @@ structure DSt where
   cur : Nat := 0
   /-- the signatures of the `mem` line (the class's shipped table is a prefix of it) -/
   base : List Sig := []
+  islots : List Innate := []
+  icur : Nat := 0
+  ibase : List Sig := []
   inn : Innate := Innate.new [] none [] 3 0 ⟨0, 0, 0, 0, 0, 0, 0, 0⟩
   now : Nat := 0
 
@@ -281,8 +284,25 @@ def step (st : DSt) (toks : List String) : DSt × String :=
   | ["export"] => (st, showList (st.mem.learned.map showSig))
   | ["stats"] => (st, s!"{memStats st.mem} audit={st.mem.audit.length} thr={st.mem.threshold}")
   | "inn" :: thr :: decayMin :: vals :: sigs =>
-    ({ st with inn := Innate.new (sigs.map parseSig) (parseVals vals) defaultVals (natD thr)
-                        (natD decayMin * 60000000) cutsOf, now := 0 }, "ok")
+    let im := Innate.new (sigs.map parseSig) (parseVals vals) defaultVals (natD thr)
+                        (natD decayMin * 60000000) cutsOf
+    ({ st with inn := im, islots := [im], icur := 0, ibase := sigs.map parseSig, now := 0 }, "ok")
+  | "inew" :: thr :: decayMin :: vals :: sigs =>
+    if st.islots.isEmpty then (st, "bad-op") else
+    let nb := match (toks.dropWhile (· ≠ "@")).drop 1 with
+      | t :: _ => if t.startsWith "nb=" then natD (t.drop 3).toString else 0
+      | [] => 0
+    let im := Innate.new (st.ibase.take nb ++ sigs.map parseSig) (parseVals vals) defaultVals (natD thr)
+                        (natD decayMin * 60000000) cutsOf
+    let slots := st.islots.set st.icur st.inn ++ [im]
+    ({ st with inn := im, islots := slots, icur := slots.length - 1 }, s!"ok k={slots.length - 1}")
+  | ["iuse", k] =>
+    let slots := st.islots.set st.icur st.inn
+    match k.toNat? with
+    | some i => match slots[i]? with
+      | some im => ({ st with inn := im, islots := slots, icur := i }, "ok")
+      | none => (st, "bad-op")
+    | none => (st, "bad-op")
   | ["check", c] =>
     let env := mkEnv table true js
     let content := decodeStr c
